@@ -194,6 +194,44 @@ def run(ck, F):
     expect('ipr::Udt', 'scope', 'this.region().bindings()')
     for cls in ('ipr::Namespace', 'ipr::Class', 'ipr::Union'):
         expect(cls, 'members', 'this.region().bindings().elements()')
+    # every implementation: the members of a user-defined type whose members are declarations (classes, unions, namespaces,
+    # enumerations) are the declarations of the region the type itself reports -- scope() is defined as region().bindings()
+    R_mr = ck.rule('C15.members-in-region', 'for every concrete user-defined type whose members are declarations, members() designates '
+                   'storage inside the very object region() returns, on every path of both: scope() (= region().bindings()) and '
+                   'members() then speak of the same declarations, and the region\'s owner is the type', floor=4)
+
+    def subterm(t, x):
+        return t == x or (isinstance(t, tuple) and any(subterm(y, x) for y in t))
+    for cls in sorted(n for n, r in F.rec.items() if not r['abstract'] and n.startswith('ipr::impl::')
+                      and any(a.startswith('ipr::Udt<') for a in F.ancestors(n))):
+        udt = [a for a in F.ancestors(cls) if a.startswith('ipr::Udt<')][0]
+        member_t = udt[len('ipr::Udt<'):-1]
+        if not (member_t == 'ipr::Decl' or (member_t in F.rec and F.derives_from(member_t, 'ipr::Decl'))):
+            ck.note(f'{contracts.short(cls)}: members are {contracts.short(member_t)}, not declarations of its region (not compared)')
+            continue
+        st0 = State()
+        o = st0.new_obj(cls)
+        try:
+            mem = S.run(F.final_overrider_by_name(cls, 'members')[0], this=o, args=[], state=st0.fork())
+            reg = S.run(F.final_overrider_by_name(cls, 'region')[0], this=o, args=[], state=st0.fork())
+        except (Unsupported, IndexError) as e:
+            raise AnalysisBroken(f'{cls}: members() / region(): {e}')
+        bad = []
+        for sr, kr, vr in reg:
+            if kr != 'return':
+                continue
+            rv = vr[1] if isinstance(vr, tuple) and vr[:1] == ('addr',) else vr
+            inside = isinstance(rv, tuple) and rv[:1] == ('fld',) and rv[1] == o
+            for sm, km, vm in mem:
+                if km != 'return':
+                    continue
+                if not inside or not subterm(vm, rv):
+                    bad.append(f'region() is `{contracts.render(vr, sr, {o[1]: "R"})[:60]}`' +
+                               (f' when {contracts.render_conds(sr.conds, sr, {o[1]: "R"})[:60]}' if sr.conds else '') +
+                               f' but members() is `{contracts.render(vm, sm, {o[1]: "R"})[:60]}`')
+        ck.check(R_mr, contracts.short(cls), bool(reg) and bool(mem) and not bad, f'{cls}: ' + '; '.join(sorted(set(bad))[:2]) +
+                 ': scope() and members() do not speak of the same declarations', loc=F.rec[cls]['loc'])
+
     # ---- Block
     expect('ipr::Block', 'body', 'this.region().body()')
     for f in fns('ipr::Block', 'try_block', 0):
